@@ -440,6 +440,8 @@ def replay_registered(mod: Any, known: List[dict]) -> tuple:
                 lines.append(
                     f"NOTE: listed finding {k['id']} no longer reproduces from {k['replay']}"
                 )
+        elif k.get("status") == "fixed" and os.environ.get("VERIF_NO_FIXED_REPLAY") == "1":
+            continue  # sensitivity experiments only (tools/revertfix.py): generators alone
         elif k.get("status") == "fixed" and outcome is not None:
             if match_known(known, mod.PROPERTY, body["part"], outcome) is not None:
                 continue  # the case now stops at another, listed finding: not this regression
